@@ -5,6 +5,8 @@ CONSTANTS
   MaxLen = 2
   Keys <- SmallKeys
   Mech = "rowidperentry"
+  MaxStmts = 1
+  QualOpts <- QNone
 INIT Init
 NEXT Next
 INVARIANTS RowidInv
